@@ -391,7 +391,7 @@ fn check(prop: &str, tier: &str) -> i32 {
             "global_seeds": reports.iter().map(|r| hex(r.global_seed)).collect::<Vec<_>>(),
             "components": {
                 "real": ["swift-mt-message (working tree of /repo)", "datafake-rs", "fake", "rand ThreadRng", "uuid", "chrono", "serde_json", "datalogic-rs", "dataflow-rs Engine/Message/workflow executor", "the four plugin handlers"],
-                "stub": ["kernel entropy: getrandom(2) defined in the simulator binary", "wall clock: clock_gettime(CLOCK_REALTIME) defined in the simulator binary", "async runtime: single-threaded poll loop instead of tokio", "OS thread scheduler: one caller thread released at a time (baton)"]
+                "stub": ["kernel entropy: getrandom(2) defined in the simulator binary", "wall clock and monotonic clock: clock_gettime(CLOCK_REALTIME / CLOCK_MONOTONIC*) defined in the simulator binary", "async runtime: single-threaded poll loop instead of tokio", "OS thread scheduler: one caller thread released at a time (baton)"]
             }
         },
         "assumptions": assumptions(property),
@@ -408,9 +408,9 @@ fn check(prop: &str, tier: &str) -> i32 {
 
 fn rule_text(p: &str) -> &'static str {
     match p {
-        "C15" => "one run = one scenario file driven through generate→publish→validate→parse (dataflow Engine + the four plugin handlers, or generate_sample_with_config) under one simulated entropy stream and one simulated wall clock (16 clock classes incl. leap days, midnight/new-year crossings, window edges, big ticks, forward/backward jumps), or as 2–3 pipelines whose tasks are interleaved one at a time across caller threads; recorded rare draws (corpus) are replayed and scenario files edited since the corpus was recorded get extra runs. Non-trivial: the run consumed at least one entropy call or clock read. Distinct: FNV-1a of the run's canonical event log (seeds, clock configuration, digests of generated JSON, published MT text and parsed JSON, seam counters).",
+        "C15" => "one run = one scenario file driven through generate→publish→validate→parse (dataflow Engine + the four plugin handlers, or generate_sample_with_config) under one simulated entropy stream and one simulated wall clock (16 clock classes incl. leap days, midnight/new-year crossings, window edges, big ticks, forward/backward jumps), or as 2–3 pipelines whose tasks are interleaved one at a time across caller threads; in that path one pipeline may have its published text corrupted by the harness (not judged; the others must be unaffected) and a pipeline may run a second pass over the same Message; recorded rare draws (corpus) are replayed and scenario files edited since the corpus was recorded get extra runs; the micro-schedule stage (validate_mt on a valid message overlapping the validation of a rule-violating one under one Miri scheduler seed = one evaluation) is counted in evaluations. Non-trivial: the run consumed at least one entropy call or clock read. Distinct: FNV-1a of the run's canonical event log (seeds, clock configuration, digests of generated JSON, published MT text and parsed JSON, seam counters).",
         "C13" => "one run = 1–3 subject messages (scenario draw + rule-directed JSON mutations, re-parsed from their MT text) validated through 6–24 operations (full/stop-on-first rules, SwiftMessage::validate, ParsedSwiftMessage::validate, validate_mt plugin alone and in a dataflow Engine, clone-then-validate, snapshots) issued by 1–4 caller threads in a seeded schedule with clock jumps between operations, closing reads (full, stop-on-first, snapshot) on every subject, plus a paired re-execution under a second hash-entropy stream and schedule; the committed corpus of recorded multi-error runs is replayed too, and the micro-schedule stage (three overlapping calls on one recorded subject under one Miri scheduler seed = one evaluation) is counted in evaluations. Non-trivial: at least two operations on a subject whose full error list is non-empty. Distinct: FNV-1a of the canonical event log (seeds, subjects' text digests, every operation with caller, arguments and result digest).",
-        "C16" => "one run = one block-4 text (published scenario draw + 0–4 field-level text mutations) tokenised and consumed by 1–4 consumers issuing an interleaved script of requests (base/full/absent tag × option-letter constraint, direct tracker calls, repeated marks, clone-and-continue, splits, repetitive-sequence parses) followed by a drain phase, plus a paired re-execution under a second hash-entropy stream. Non-trivial: at least one variant-letter response and at least one base tag with two or more occurrences. Distinct: FNV-1a of the canonical event log (seeds, text digest, every request with consumer, arguments and response).",
+        "C16" => "one run = one block-4 text (published scenario draw + 0–4 field-level text mutations) tokenised and consumed by 1–4 consumers issuing an interleaved script of requests (base/full/absent tag × option-letter constraint, direct tracker calls, repeated marks, clone-and-continue, splits, repetitive-sequence parses) followed by a drain phase, plus a paired re-execution under a second hash-entropy stream; one run in twelve works on a long text (up to 600 fields) and every run has a simulated monotonic clock tick (slow node); the micro-schedule stage (three consumers tokenising, splitting and draining two texts under one Miri scheduler seed = one evaluation) is counted in evaluations. Non-trivial: at least one variant-letter response and at least one base tag with two or more occurrences. Distinct: FNV-1a of the canonical event log (seeds, text digest, every request with consumer, arguments and response).",
         _ => "",
     }
 }
